@@ -81,7 +81,7 @@ ARG = {
     'NOSPACE': [b''],      # glued to the previous token: handled by the joiner
     'TRAILSP': [b' '],
     'BARELF': [b'\n'],
-    'LONG': [b'a' * 60000, b'"' + b'b' * 60000 + b'"'],
+    'LONG': [b'a' * 30000, b'"' + b'b' * 30000 + b'"'],
     # managesieve
     'SCRIPT_OK': [b'{6+}\r\nkeep;\n', b'"keep;"'],
     'SCRIPT_BAD': [b'{5+}\r\nbogus', b'"if"'],
